@@ -419,6 +419,11 @@ func (g *chainGen) observe() {
 		}
 		return
 	case 7:
+		if r.Chance(1, 3) && g.nextB > 1 {
+			// journal of any block delivered so far (rejected ones have ids >= nextB and are skipped)
+			g.ops = append(g.ops, fmt.Sprintf("J%d", 1+r.Intn(g.nextB-1)))
+			return
+		}
 		if g.nviews > 0 && r.Bool() {
 			g.ops = append(g.ops, "W")
 		} else {
@@ -658,6 +663,66 @@ func genCache(r *core.Rand, maxOps int) (string, bool) {
 	return "C03 cache " + strings.Join(ops, " "), n >= 4
 }
 
+// genView makes a `view` line: the exported UtxoViewpoint / UtxoEntry API on a bare view.
+func genView(r *core.Rand) string {
+	n := 3 + r.Intn(14)
+	scripts := []string{"51", "52", "-", "6a", "0151", "4c", "6a01ff", "53"}
+	mkTx := func(id int, cb bool) string {
+		ins := "-"
+		if !cb {
+			ins = fmt.Sprintf("%d.%d", 50+r.Intn(3), r.Intn(2))
+		}
+		k := 1 + r.Intn(3)
+		outs := make([]string, k)
+		for i := range outs {
+			outs[i] = fmt.Sprintf("%d.%s", r.Range(0, 900)+int64(1000*id), scripts[r.Intn(len(scripts))])
+		}
+		return fmt.Sprintf("%d;%s;%s", id, ins, strings.Join(outs, ","))
+	}
+	txs := map[int]string{}
+	cbs := map[int]bool{}
+	var ops []string
+	// outpoints of transactions defined so far, or of transactions nobody defines (ids 60..)
+	op := func() string {
+		var ids []int
+		for id := 1; id <= 4; id++ {
+			if _, ok := txs[id]; ok {
+				ids = append(ids, id)
+			}
+		}
+		if len(ids) == 0 || r.Chance(1, 8) {
+			return fmt.Sprintf("%d.%d", 60+r.Intn(2), r.Intn(2))
+		}
+		return fmt.Sprintf("%d.%d", ids[r.Intn(len(ids))], r.Intn(4))
+	}
+	for i := 0; i < n; i++ {
+		switch x := r.Intn(100); {
+		case x < 40:
+			id := 1 + r.Intn(4)
+			if _, ok := txs[id]; !ok {
+				cbs[id] = r.Chance(1, 3)
+				txs[id] = mkTx(id, cbs[id])
+			}
+			if r.Chance(2, 3) {
+				ops = append(ops, fmt.Sprintf("T%d:%d:%s", b2i(cbs[id]), 1+r.Intn(9), txs[id]))
+			} else {
+				ops = append(ops, fmt.Sprintf("o%d:%d:%d:%s", b2i(cbs[id]), 1+r.Intn(9), r.Intn(5), txs[id]))
+			}
+		case x < 52:
+			ops = append(ops, "r"+op())
+		case x < 68:
+			ops = append(ops, "s"+op())
+		case x < 84:
+			ops = append(ops, "l"+op())
+		case x < 90:
+			ops = append(ops, fmt.Sprintf("h%d", r.Intn(300)))
+		default:
+			ops = append(ops, fmt.Sprintf("e%s:%d:%s:%d:%d", op(), r.Range(0, 5000), scripts[r.Intn(len(scripts))], r.Intn(9), r.Intn(2)))
+		}
+	}
+	return "C03 view " + strings.Join(ops, " ")
+}
+
 func (P) Generate(g *core.Gen) {
 	r := g.R
 	for i, n := 0, g.N(150, 600); i < n; i++ {
@@ -689,6 +754,9 @@ func (P) Generate(g *core.Gen) {
 			subs = append(subs, strings.TrimPrefix(line, "C03 chain "))
 		}
 		g.Case("multi8", true, "C03 multi "+strings.Join(subs, " ## "))
+	}
+	for i, n := 0, g.N(400, 3000); i < n; i++ {
+		g.Case("view", true, genView(r.Fork()))
 	}
 	for i, n := 0, g.N(2000, 12000); i < n; i++ {
 		line, nt := genCache(r.Fork(), 24)
